@@ -68,8 +68,8 @@ def required(tier):
             # oracle audit: one counter per kind of locked chemical (harness table), the NaN-safe ledger and the sparse invariant on every written stream, placement on the
             # via-locked paths actually judged (not skipped for relabelled outlets), the per-shard refusal ceilings / reach floors evaluated
             'locked:l', 'locked:s', 'judged:finite', 'judged:invariant', 'via-locked:placement-judged', 'rates:checked'] + ['judged:' + op for op in CEIL] + [
-            # run-level floors (about half the smallest quick-tier count over seeds 0-3)
-            'vlle:three-phase>=10', 'judged:vle:Tx>=20', 'judged:vle:Ty>=20', 'judged:vle:Px>=20', 'judged:vle:Py>=20', 'judged:vle:TH>=45', 'judged:vle:TS>=33', 'judged:vle:PS>=50']
+            # run-level floors (about a third of the smallest quick-tier count over seeds 0-8: vlle:three-phase ranged 9-24)
+            'vlle:three-phase>=4', 'judged:vle:Tx>=12', 'judged:vle:Ty>=12', 'judged:vle:Px>=12', 'judged:vle:Py>=12', 'judged:vle:TH>=30', 'judged:vle:TS>=22', 'judged:vle:PS>=33']
 
 
 def chem(i):
@@ -894,7 +894,7 @@ def check_rates(rec, tier):
     u = rec.reach.get('refused:unlisted-numerical', 0)
     if u > max(2, 1.5e-3 * rec.cases): breaches.append(f'{u} numerical failures from sites not seen on the unchanged library in {rec.cases} cases')
     for k, m in SHARD_MEAN.items():
-        floor = int(m / 4) if tier == 'quick' else int(5 * m)
+        floor = int(m / 8) if tier == 'quick' else int(5 * m)      # (quick: an eighth of the per-shard mean: P(fewer) < 2e-6 per counter for a mean of 16)
         if tier == 'quick' and m < 16: continue
         if rec.reach.get(k, 0) < floor: breaches.append(f'reach counter {k}: {rec.reach.get(k, 0)} hits in this shard (floor {floor}, baseline mean {m if tier == "quick" else 15 * m})')
     rec.hit('rates:checked')
